@@ -254,4 +254,50 @@ H3Error gridDiskUnsafe_contract(H3Index origin, int k, H3Index *out)
 __CPROVER_requires(h3v_err <= 15 && h3v_n >= 1 && h3v_n <= (1 << 20) && __CPROVER_is_fresh(out, sizeof(H3Index) * h3v_n))
 __CPROVER_assigns(__CPROVER_object_whole(out))
 __CPROVER_ensures(__CPROVER_return_value == h3v_err);
+
+/* ---- _h3ToFaceIjk: the integer half of cellToLatLng / cellToBoundary / getIcosahedronFaces / vertexToLatLng, on ARBITRARY 64-bit indexes
+ * (invalid base cell, digit 7 inside the resolution, deleted sub-sequence ...): memory safety of every table read, no arithmetic UB,
+ * result code, face in range.  Two enforced variants split the domain by the kind of base cell (the secondary-overage while loop is
+ * reachable for pentagon base cells only). */
+H3Error _h3ToFaceIjk_hexbc(H3Index h, FaceIJK *fijk)
+__CPROVER_requires(__CPROVER_is_fresh(fijk, sizeof(FaceIJK)) && !S_PENT_BC(S_BC(h)))
+__CPROVER_assigns(*fijk)
+__CPROVER_ensures(__CPROVER_return_value == 0 || __CPROVER_return_value == S_ERR_CELL_INVALID)
+__CPROVER_ensures((S_BC(h) >= 122) == (__CPROVER_return_value == S_ERR_CELL_INVALID))
+__CPROVER_ensures(fijk->face >= 0 && fijk->face <= 19)
+__CPROVER_ensures(__CPROVER_return_value == S_ERR_CELL_INVALID ==> (fijk->face == 0 && fijk->coord.i == 0 && fijk->coord.j == 0 && fijk->coord.k == 0));
+H3Error _h3ToFaceIjk_pentbc(H3Index h, FaceIJK *fijk)
+__CPROVER_requires(__CPROVER_is_fresh(fijk, sizeof(FaceIJK)) && S_PENT_BC(S_BC(h)))
+__CPROVER_assigns(*fijk)
+__CPROVER_ensures(__CPROVER_return_value == 0)
+__CPROVER_ensures(fijk->face >= 0 && fijk->face <= 19);
+/* what callers may rely on (replacement form; the union of the two enforced variants) */
+H3Error _h3ToFaceIjk_safe(H3Index h, FaceIJK *fijk)
+__CPROVER_requires(__CPROVER_rw_ok(fijk, sizeof(FaceIJK)))
+__CPROVER_assigns(*fijk)
+__CPROVER_ensures(__CPROVER_return_value == 0 || __CPROVER_return_value == S_ERR_CELL_INVALID)
+__CPROVER_ensures((S_BC(h) >= 122) == (__CPROVER_return_value == S_ERR_CELL_INVALID))
+__CPROVER_ensures(fijk->face >= 0 && fijk->face <= 19);
+void _faceIjkToGeo_frame(const FaceIJK *h, int res, LatLng *g)
+__CPROVER_requires(__CPROVER_r_ok(h, sizeof(FaceIJK)) && __CPROVER_rw_ok(g, sizeof(LatLng)) && h->face >= 0 && h->face <= 19 && res >= 0 && res <= 15)
+__CPROVER_assigns(*g) __CPROVER_ensures(1);
+void _faceIjkToCellBoundary_frame(const FaceIJK *h, int res, int start, int length, CellBoundary *g)
+__CPROVER_requires(__CPROVER_r_ok(h, sizeof(FaceIJK)) && __CPROVER_rw_ok(g, sizeof(CellBoundary)) && h->face >= 0 && h->face <= 19 && res >= 0 && res <= 15 &&
+                   start == 0 && length == 6)
+__CPROVER_assigns(*g) __CPROVER_ensures(g->numVerts >= 0 && g->numVerts <= 10);
+void _faceIjkPentToCellBoundary_frame(const FaceIJK *h, int res, int start, int length, CellBoundary *g)
+__CPROVER_requires(__CPROVER_r_ok(h, sizeof(FaceIJK)) && __CPROVER_rw_ok(g, sizeof(CellBoundary)) && h->face >= 0 && h->face <= 19 && res >= 0 && res <= 15 &&
+                   start == 0 && length == 5)
+__CPROVER_assigns(*g) __CPROVER_ensures(g->numVerts >= 0 && g->numVerts <= 10);
+/* cellToLatLng / cellToBoundary on arbitrary indexes: E_CELL_INVALID exactly for a base cell number >= 122 with the output untouched, otherwise
+ * success; the projection callees are entered with a face in 0..19 and a resolution in 0..15 (their preconditions are checked here) */
+H3Error cellToLatLng_contract(H3Index h3, LatLng *g)
+__CPROVER_requires(__CPROVER_is_fresh(g, sizeof(LatLng)))
+__CPROVER_assigns(*g)
+__CPROVER_ensures(__CPROVER_return_value == ((S_BC(h3) >= 122) ? S_ERR_CELL_INVALID : 0));
+H3Error cellToBoundary_contract(H3Index h3, CellBoundary *cb)
+__CPROVER_requires(__CPROVER_is_fresh(cb, sizeof(CellBoundary)))
+__CPROVER_assigns(*cb)
+__CPROVER_ensures(__CPROVER_return_value == ((S_BC(h3) >= 122) ? S_ERR_CELL_INVALID : 0))
+__CPROVER_ensures(__CPROVER_return_value == 0 ==> (cb->numVerts >= 0 && cb->numVerts <= 10));
 #endif
